@@ -139,3 +139,37 @@ Proof.
   destruct (ref_allow a) as [da|] eqn:Ha; [|exfalso; exact (Hwf a Hin Ha)].
   exists a, da. split; [exact Hin|]. split; [exact Ha|]. exact (url_sound url a du da Hu Ha M).
 Qed.
+
+(* ---- tables and ids ---- *)
+Lemma same_id_when_mutating : forall argv id,
+  ref_id argv = Some id -> In id mutating_ids -> agentpack_command_id argv = Some id.
+Proof. intros argv id H Hin. apply ref_id_lint; [exact H|apply mem_str_In; exact Hin]. Qed.
+
+Lemma ids_producible : forall id, In id mutating_ids ->
+  exists argv, agentpack_command_id argv = Some id /\ ref_id argv = Some id.
+Proof.
+  assert (A : forallb (fun id => match agentpack_command_id (split_whitespace id), ref_id (split_whitespace id) with
+                                 | Some x, Some y => str_eqb x id && str_eqb y id
+                                 | _, _ => false end) mutating_ids = true) by (vm_compute; reflexivity).
+  intros id Hin. rewrite forallb_forall in A. specialize (A id Hin). exists (split_whitespace id).
+  destruct (agentpack_command_id (split_whitespace id)) as [x|]; [|discriminate].
+  destruct (ref_id (split_whitespace id)) as [y|]; [|discriminate].
+  apply andb_true_iff in A as [A1 A2]. apply str_eqb_eq in A1, A2. subst. split; reflexivity.
+Qed.
+
+Lemma same_set :
+  (forall id, In id mutating_ids <-> In id guard_site_ids) /\
+  (forall id, In id mutating_ids -> In id catalogue_ids) /\
+  lint_uses_mutating_const = true /\ help_uses_mutating_const = true /\ guard_checks_mutating_const = true /\
+  (forall t, mem_str t cli_global_value_flags = mem_str t policy_flags_with_value) /\
+  (forall t, mem_str t cli_global_bool_flags = mem_str t policy_flags_no_value).
+Proof.
+  assert (S : forall A B, forallb (fun x => mem_str x B) A && forallb (fun x => mem_str x A) B = true ->
+                          forall id, In id A <-> In id B).
+  { intros A B H id. pose proof (mem_str_set_eq A B H id) as E. rewrite <- !mem_str_In, E. tauto. }
+  split; [apply S; vm_compute; reflexivity|].
+  split.
+  { assert (A : forallb (fun x => mem_str x catalogue_ids) mutating_ids = true) by (vm_compute; reflexivity).
+    intros id Hin. rewrite forallb_forall in A. apply mem_str_In, A, Hin. }
+  repeat split; try reflexivity; apply mem_str_set_eq; vm_compute; reflexivity.
+Qed.
